@@ -424,12 +424,20 @@ def main(argv=None):
     if a.replay:
         return replay_file(a.pid, a.replay)
     seed = int(os.environ.get("VERIF_SEED", "0") or 0)
+    import shutil
+    import tempfile
+
+    # scratch space of this run (generated packages); workers create their directories inside it
+    tmp = tempfile.mkdtemp(prefix="verif_run_")
+    os.environ["VERIF_TMP"] = tmp
     try:
         return run_check(a.pid, a.tier, seed)
     except Exception:
         traceback.print_exc()
         print(f"HARNESS-ERROR property={a.pid}: check crashed")
         return 2
+    finally:
+        shutil.rmtree(tmp, ignore_errors=True)
 
 
 if __name__ == "__main__":
